@@ -317,7 +317,7 @@ def angle_helper_facets(run):
 
 # ----------------------------------------------------------------------------- bounded stand-in
 def bounded(run):
-    n = 240 if run.tier == "quick" else 3000
+    n = 240 if run.tier == "quick" else 3000 * run.tmul
     jobs = [dict(seed=run.seed * 13 + k, count=n // 8) for k in range(8)]
     res, errs = native.pmap("contracts.C13", "nat_sweep", jobs)
     ev = sum(r["evaluations"] for r in res if r and "_error" not in r)
